@@ -259,6 +259,8 @@ Fixpoint run_chan (max_msg : Z) (c : chan) (before : cobs) (steps : list (cop * 
 Inductive case :=
   (* real protocol.ByteToBase10: res = -1 for an error, the value otherwise (a uint64 as Z) *)
 | B10 (p : list Z) (res : Z)
+  (* the same for a batch of strings *)
+| B10s (l : list (list Z * Z))
   (* real msToDuration *)
 | MsDur (ms : Z) (ns : Z)
   (* live RDY: the token the server saw, accepted?, the client's ReadyCount afterwards *)
@@ -295,13 +297,18 @@ Definition in_window (d t0 t1 pri : Z) : bool := (t0 + d <=? pri) && (pri <=? t1
 (* the specification value of a delay parameter, from the mathematical value *)
 Definition spec_ns (p : bytes) : Z := Z.of_N (dec_value p) * 1000000.
 
+Definition b10_agree (p : list Z) (res : Z) : bool :=
+  let b := to_bytes p in
+  (match byte_to_base10 b with None => -1 | Some n => Z.of_N n end) =? res.
+Definition b10_spec (p : list Z) (res : Z) : bool :=
+  let b := to_bytes p in
+  (if all_digits b then Z.min (Z.of_N (dec_value b)) 18446744073709551615 else -1) =? res.
+
 Definition judge (c : case) : N :=
   match c with
-  | B10 p res =>
-      let b := to_bytes p in
-      let m := match byte_to_base10 b with None => -1 | Some n => Z.of_N n end in
-      let spec := if all_digits b then Z.min (Z.of_N (dec_value b)) 18446744073709551615 else -1 in
-      verdict (m =? res) (spec =? res)
+  | B10 p res => verdict (b10_agree p res) (b10_spec p res)
+  | B10s l =>
+      verdict (forallb (fun '(p, res) => b10_agree p res) l) (forallb (fun '(p, res) => b10_spec p res) l)
   | MsDur ms ns =>
       verdict (ms_to_duration (Z.to_N ms) =? ns) (Z.min (ms * 1000000) 9223372036854775807 =? ns)
   | Rdy max_rdy p accepted count =>
